@@ -8,6 +8,7 @@ package c07
 
 import (
 	"context"
+	"encoding/json"
 	"fmt"
 	"os"
 	"reflect"
@@ -183,12 +184,24 @@ func buildServer(ctx context.Context, t *testing.T, h host.Host, tc trustCfg, tp
 		if err != nil {
 			t.Fatal(err)
 		}
+		// the configuration takes the way it takes in the daemon: the crdt
+		// section of service.json is loaded, then the environment is applied
+		// (config.Manager.LoadJSONFileAndEnv does exactly these two steps)
+		tps := []string{}
+		if tc.TrustAll {
+			tps = []string{"*"}
+		} else if tc.List != nil {
+			for _, p := range tc.List(tp, up) {
+				tps = append(tps, peer.Encode(p))
+			}
+		}
+		raw, _ := json.Marshal(map[string]interface{}{"cluster_name": "verif", "trusted_peers": tps})
 		cfg := &crdt.Config{}
-		cfg.Default()
-		cfg.ClusterName = "verif"
-		cfg.TrustAll = tc.TrustAll
-		if tc.List != nil {
-			cfg.TrustedPeers = tc.List(tp, up)
+		if err := cfg.LoadJSON(raw); err != nil {
+			t.Fatal(err)
+		}
+		if err := cfg.ApplyEnvVars(); err != nil {
+			t.Fatal(err)
 		}
 		cc, err := crdt.New(h, dht, ps, cfg, inmem.New())
 		if err != nil {
